@@ -158,3 +158,30 @@ func Send(ch interface{}, v interface{}) {
 	}
 	cv.Send(vv)
 }
+
+// ---- package-level state of the repository -----------------------------------------------------------------------
+
+var resetNames []string
+var resetFns = map[string]func(){}
+
+// RegisterReset is called from the generated init function of every rewritten package that has package-level variables.
+func RegisterReset(pkg string, f func()) {
+	if _, dup := resetFns[pkg]; !dup {
+		resetNames = append(resetNames, pkg)
+	}
+	resetFns[pkg] = f
+}
+
+// ResetPackageState gives every registered package-level variable its initial value again.
+func ResetPackageState() int {
+	for _, n := range resetNames { // registration order = package initialisation order (dependencies first)
+		resetFns[n]()
+	}
+	return len(resetNames)
+}
+
+// Zero sets *p to the zero value of its type.
+func Zero(p interface{}) {
+	v := reflect.ValueOf(p).Elem()
+	v.Set(reflect.Zero(v.Type()))
+}
